@@ -312,6 +312,23 @@ pub fn run(ctx: &Ctx) -> CheckResult {
                 jobs.push((Cfg::of(k, &[p, (p % 3) + 1, (p % 4) + 1], 2.0), if linear && p > 16 { calls / 4 } else { calls }));
             }
         }
+        // very large periods: window-length arithmetic in narrow integer types overflows only beyond 2^16
+        for k in ALL_KINDS {
+            if k.nperiods() == 0 {
+                continue;
+            }
+            let linear = matches!(k, Kind::Mad | Kind::Cci | Kind::Er);
+            let big: Vec<usize> = if th { vec![65_535, 65_536, 65_537, 100_000, 1 << 20] } else { vec![65_536, 100_000] };
+            for p in big {
+                if linear && (!th || p > 70_000) {
+                    continue; // O(n) per step: 65 536^2 steps only in the thorough tier
+                }
+                jobs.push((Cfg::of(k, &[p, 3, 2], 2.0), p + p / 8 + 7));
+                if k.nperiods() >= 2 {
+                    jobs.push((Cfg::of(k, &[3, p, p], 2.0), p + p / 8 + 7));
+                }
+            }
+        }
         jobs.sort_by_key(|j| std::cmp::Reverse(j.1 * if matches!(j.0.kind, Kind::Mad | Kind::Cci | Kind::Er) { j.0.p[0] } else { 1 }));
         let outs = par_run(ctx, &jobs, |_, (cfg, calls)| {
             let mut out = JobOut::default();
@@ -354,7 +371,7 @@ pub fn run(ctx: &Ctx) -> CheckResult {
     }
     res.extra.insert("cursor_states".into(), json!(cursor_rows));
     res.rule = "case = (configuration, history mixing ordinary values with NaN, +-inf, +-f64::MAX, subnormals, -0.0, inconsistent bars and resets); every next()/reset() and, in the final state, Display, Debug, clone and bincode serialization must return normally under catch_unwind with overflow checks and debug assertions on; non-trivial = history longer than the period".into();
-    res.bounds = format!("(a) all sequences over {{1.0, 7 special values / 9 special bars, reset}} up to depth {depth}, all 22 indicators, periods 1..4 and multipliers {{2,0,-1,NaN,1e300,inf}}; (b) every period 1..64: default stream of 3n+3 inputs, every prefix length, every special value / reset at every position{}; (c) periods 100, 257, 1000, 4096 with strided positions; (d) one long run of ordinary inputs per indicator and period 1..64: 3e5 (1.2e6) calls for periods <= 8, 7e4 (3e5) above - past 2^16 wrap-arounds for small periods", if th { ", every pair of positions for n<=16" } else { "" });
+    res.bounds = format!("(a) all sequences over {{1.0, 7 special values / 9 special bars, reset}} up to depth {depth}, all 22 indicators, periods 1..4 and multipliers {{2,0,-1,NaN,1e300,inf}}; (b) every period 1..64: default stream of 3n+3 inputs, every prefix length, every special value / reset at every position{}; (c) periods 100, 257, 1000, 4096 with strided positions; (d) one long run of ordinary inputs per indicator and period 1..64: 3e5 (1.2e6) calls for periods <= 8, 7e4 (3e5) above - past 2^16 wrap-arounds for small periods; periods 65536 and 100000 (thorough: 65535..2^20) run past their first wrap-around", if th { ", every pair of positions for n<=16" } else { "" });
     res.assumptions = vec![
         "built with overflow-checks = true and debug-assertions = true (profile of /verif/mc)".into(),
         "counters wider than 16 bits that overflow only after more than ~10^6 calls are out of reach of stage (d)".into(),
